@@ -236,6 +236,52 @@ CHECKS_EXTRA = {
 }
 CHECKS.update(CHECKS_EXTRA)
 
+# what the four rounds of independently seeded changes added to each check (DESIGN.md section 8.3 has the reasons)
+ADDED = {
+    "C01": "Also: *args / **kwargs call forms, mixed lax/strict declarations, a data class with a no-input constrained field under addition=True.",
+    "C02": "Also: constants of a subclass type, Enum classes as the enum constraint (incl. a Flag and members with unhashable values), "
+           "triples of constraints for every origin in the thorough tier.",
+    "C03": "Also: untyped rules with lax const / enum, lax bounds of another numeric type, unions whose earlier member accepts instances of a "
+           "later one; drift of a union is sub-classified (strict-stage capture = recorded design finding, lenient-only capture = violation).",
+    "C04": "Also: addition=False option sets, hostile excess values, contains declarations, a discriminator shard, a cast_keyword_str shard "
+           "(keys that cannot be cast). Non-termination = over the line budget AND an untraced confirmation run of >= 30 s does not complete.",
+    "C05": "Also: data_first_search / ignore_alias_conflicts combined with addition policies, falsy extra values, both key orders, fields combining "
+           "mode with a mode-string no_input / no_output, classes declared after the class under test (subclass, unrelated class).",
+    "C06": "Also: the same additions as C05 (the universe is shared) and declarations where a subclass re-declares an aliased base field plainly.",
+    "C07": "Also: instances built by __from__ / as nested fields / with runtime options, multi-key update and |= with mappings and other instances, "
+           "a dependant property that can become hidden, absent keys must not leave stale attributes, collect_errors + addition option sets, and a "
+           "second class model (inherited fields, mixed-case names, case_insensitive / immutable subclass options).",
+    "C08": "Also: decoration with Options(addition=True) / Options(collect_errors=True), unannotated parameters, @utype.parse above @staticmethod, "
+           "generator functions as static / class methods of a parsed class, falsy generator return values, sequences of complete uses of one "
+           "decorated generator function.",
+    "C10": "Also: the axes ignore_constraints=True and max_params=1, a Schema with a typed property computed from a field.",
+    "C11": "Also: element types failing with OverflowError / decimal.InvalidOperation, containers reached through Optional / Union / any_of, fields "
+           "required in a mode with a default, typed properties with a getter on_error, runtime policies differing from the declared ones for "
+           "extra keys; sequences up to length 7 in the thorough tier.",
+    "C12": "Also: lists / tuples of data-class instances and of non-dict mappings, memoryviews, Options(addition=None, **flags), the caller's "
+           "no_explicit_cast for data-class targets; every atom wrapped in one- and two-element containers in the thorough tier.",
+    "C13": "Also: programs with properties (getter / setter of different types), fields combining mode with mode-string no_input / no_output, "
+           "Final fields, class options no_default / defer_default / ignore_required.",
+    "C14": "Also: two-level container shapes (Set[Tuple], List[Set], Dict[str, Inner], FrozenSet ...), unorderable and name-crossing Enums, "
+           "Optional[int] elements, Decimals with exponents far outside the float range; all value pairs in the thorough tier.",
+    "C15": "Also: property names colliding after sanitising (both orders), keywords with falsy values, prefixItems with unconstrained members, "
+           "every ordered pair of scalar schemas under each combinator in the thorough tier; allOf findings are sub-classified "
+           "(last member wins = recorded design finding).",
+    "C16": "Also: raising detectors, classes + metaclass, a non-class target, re-registration of one function under other criteria, a detector "
+           "that registers during the scan, a virtual subclass of an abstract class.",
+    "C17": "Also: twin scenarios (a program with forward references executed piecewise with probes against its direct-reference twin): constrained "
+           "references, partial first calls of functions, *args / **kwargs / return / generator references (module level, local, postponed "
+           "annotations), two bases with the same pending name, generics inside logical types, subclasses.",
+    "C18": "Also: one-element-list wrapped nesting, decorated / DataClass / declared-__init__ declarations, limits coming from an override=True "
+           "outer class, collecting declarations, four strictness option sets and a self-containing-input family for the cost part, whose "
+           "cut-off is the counting leaf itself (no timing).",
+    "C19": "Also: cast_keyword_str with non-str keys, a positional mapping together with a keyword, force_default kinds, shared types with two "
+           "dependent fields, re-parsing an immutable input after the result was mutated.",
+    "C20": "Also: Type['X'] fields, two classes sharing one typing-cached reference, a warm registry cache racing an unrelated registration; "
+           "nested code objects (lambdas, inner functions) of the instrumented functions are scheduling points; the cooperative lock honours "
+           "blocking=False.",
+}
+
 NOT_YET = "check not built yet in this round (planned, see DESIGN.md §3)"
 
 
@@ -245,6 +291,8 @@ def main():
         if pid not in CHECKS:
             continue
         tech, text, note, ref = CHECKS[pid]
+        if pid in ADDED:
+            text = text + " " + ADDED[pid]
         checks.append(dict(
             property_id=pid,
             quick_cmd=f"./check {pid} --tier quick",
